@@ -9,10 +9,10 @@ for d in seeded/*/; do
   git -C /repo worktree add -f --detach "$WT" HEAD -q
   if ! ( cd "$WT" && git apply "/verif/$d/patch.diff" ) ; then echo "$id: PATCH DOES NOT APPLY"; git -C /repo worktree remove --force "$WT"; continue; fi
   for c in $checks; do
-    out=$(PYTHONPATH="$WT/src" PYTHONHASHSEED=0 PESTVERIF_MAX_BUCKETS=1 timeout 1800 /venv/bin/python -m pestverif check $c --tier quick 2>&1 || true)
+    out=$(PYTHONPATH="$WT/src" PESTVERIF_EVIDENCE_DIR=/tmp/pestverif_scratch_evidence PYTHONHASHSEED=0 PESTVERIF_MAX_BUCKETS=1 timeout 1800 /venv/bin/python -m pestverif check $c --tier quick 2>&1 || true)
     n=$(echo "$out" | grep -c "^VIOLATION" || true)
     if [ "$n" -gt 0 ]; then echo "$id $c: CAUGHT"; else echo "$id $c: MISSED  ($(echo "$out" | tail -1 | cut -c1-120))"; fi
   done
   git -C /repo worktree remove --force "$WT"
 done
-git -C /verif checkout -- evidence 2>/dev/null || true
+rm -rf /tmp/pestverif_scratch_evidence
